@@ -99,6 +99,16 @@ def replay_walk(c, walk, wd, exc):
                             problems.append('after shutdown a thread still running the agent acted: %s plugin calls, '
                                             '%s sends' % acted['delta'])
                 time.sleep(0.01)
+                if name == 'start' and sysm.deep.started:
+                    # every life of the agent gets the configuration the service has for it (installed by a
+                    # background task: wait for the task handler to be idle)
+                    t0 = time.time()
+                    while sysm.deep.task_handler._pending and time.time() - t0 < 5:
+                        time.sleep(0.005)
+                    ids = sorted({a.id for t in sysm.deep.trigger_handler._tp_config for a in t.actions})
+                    if ids != ['life']:
+                        problems.append('after %s the trigger handler acts on %s, the service configuration of this life '
+                                        'holds the tracepoint "life"' % (steps[-1], ids))
                 real = sysm.project()
                 exp = {'sysTrace': st['sysTrace'], 'thrTrace': st['thrTrace'], 'started': st['started'],
                        'pollAlive': st['pollAlive']}
